@@ -65,7 +65,7 @@ Fixpoint apply_datum (c : codec) (dest : gval) (d : datum) {struct c} : option g
             ((fix go (kvs : list (bytes * datum)) (acc : list (bytes * gval)) {struct kvs} : option (list (bytes * gval)) :=
                 match kvs with
                 | [] => Some acc
-                | (k, d') :: r => match (if new_nil vc then None else apply_datum vc vz d') with
+                | (k, d') :: r => match apply_datum vc vz d' with
                                   | Some v => go r (acc ++ [(k, v)])
                                   | None => None end
                 end) kvs kvs0)
